@@ -607,7 +607,8 @@ def run_hist(hist):
                                   '%s(%r) on %r raised %r, EngineError expected' % (op, ev[1], sid, got_exc)))
                 outcome = tag + '|refused'
             elif exp_exc == 'open':
-                outcome = tag + '|' + (type(got_exc).__name__ if got_exc else 'accepted')
+                # statement silent: outcome recorded, nothing asserted, the history is not extended
+                return None, [], tag + '|open|' + (type(got_exc).__name__ if got_exc else 'accepted')
             else:
                 if got_exc is not None:
                     viols.append(('C17|segment|%s|raises %s@%s' % (tag, type(got_exc).__name__, core.where(got_exc)),
@@ -621,7 +622,7 @@ def run_hist(hist):
                 else:
                     outcome = tag + '|' + ('none' if (op == 'get' and ret is None) else 'pad' if (op == 'set' and len(M2) > len(M)) else 'ok')
             # state after the event = model after the event, position by position (read-after-write, padding, frame)
-            if exp_exc != 'open' or got_exc is None or True:
+            if True:
                 try:
                     obs = observe(seg, sid, ne)
                     n = len(seg)
